@@ -8,12 +8,12 @@ LEVEL = "exploration"
 RULE = (
     "metamorphic pairs of runs over seeded cells (kinds, heavynesses, schemes, PTO 0..3, SV keys, EW box, arbitrary CKM): "
     "(decouple) NC with MZ=MW=1e12 vs EM, |diff| <= 1e-10*scale(F2); (pol) positron with P vs electron with -P, bit-identical; "
-    "(cc) antineutrino vs neutrino and e- vs e+ CC: O[p] = +-O'[pbar], minus for F3 (rtol 1e-12), and e+ == neutrino, "
+    "(cc) antineutrino vs neutrino and e- vs e+ CC: O[p] = +-O'[pbar], minus for F3 (rtol 1e-10), and e+ == neutrino, "
     "e- == antineutrino bit-identical; (flav) NC/EM, every scheme: rows of light (massless) quarks with identical charges coincide "
-    "(d=s=b, u=c among the nf light flavours) (rtol 1e-12). Distinct = (relation, kind, heavyness, scheme, PTO); non-trivial = the compared tensors are non-zero."
+    "(d=s=b, u=c among the nf light flavours) (rtol 1e-10). Distinct = (relation, kind, heavyness, scheme, PTO); non-trivial = the compared tensors are non-zero."
 )
 ASSUMPTIONS = ["Z decoupling is realised by MZ = MW = 1e12 GeV (propagator ratio ~ Q2/MZ^2 <= 1e-19)"]
-RTOL = 1e-12
+RTOL = 1e-10  # re-association noise is relative to the sum of |kernel terms|, which can exceed the result by 1e2 (thorough: margin 0.7 at 1e-12)
 
 
 def budget(tier):
